@@ -1,7 +1,166 @@
-//! relation-level jobs (parsing, rewriting, rule extraction)
-use crate::codec::R;
-use serde_json::Value as J;
+//! relation-level jobs (parsing, IR dump, rendering; rewriting lives in rw.rs)
+use crate::codec::*;
+use crate::guarded;
+use qrlew::data_type::DataType;
+use qrlew::dialect_translation::{postgresql::PostgreSqlTranslator, sqlite::SQLiteTranslator, RelationWithTranslator};
+use qrlew::hierarchy::Hierarchy;
+use qrlew::relation::{
+    field::Constraint, Field, JoinOperator, Relation, Schema, Table, Values, Variant as _,
+};
+use qrlew::sql::{self, relation::QueryWithRelations};
+use qrlew::ast;
+use qrlew::data_type::DataTyped;
+use serde_json::{json, Value as J};
+use std::sync::Arc;
 
-pub fn run(_op: &str, _job: &J) -> Option<R<J>> {
-    None
+pub fn integer_from(j: &J) -> R<qrlew::data_type::Integer> {
+    // a number n -> exactly n rows (what TableBuilder::size does); [lo,hi] -> interval
+    match j {
+        J::Null => Ok(qrlew::data_type::Integer::from_min(0)),
+        J::Array(a) if a.len() == 2 => Ok(qrlew::data_type::Integer::from_interval(j_i64(&a[0])?, j_i64(&a[1])?)),
+        _ => Ok(qrlew::data_type::Integer::from_value(j_i64(j)?)),
+    }
+}
+
+pub fn tables_from(j: &J) -> R<Hierarchy<Arc<Relation>>> {
+    let mut out: Vec<(Vec<String>, Arc<Relation>)> = vec![];
+    for t in j.as_array().ok_or("tables must be an array")? {
+        let name = t["name"].as_str().ok_or("table name")?.to_string();
+        let path: Vec<String> = match t["path"].as_array() {
+            Some(p) => p.iter().map(|s| s.as_str().unwrap_or("").to_string()).collect(),
+            None => vec![name.clone()],
+        };
+        let mut fields = vec![];
+        for f in t["fields"].as_array().ok_or("fields")? {
+            let c = match f["constraint"].as_str() {
+                Some("Unique") => Some(Constraint::Unique),
+                Some("PrimaryKey") => Some(Constraint::PrimaryKey),
+                Some("ForeignKey") => Some(Constraint::ForeignKey),
+                _ => None,
+            };
+            fields.push(Field::new(f["name"].as_str().ok_or("field name")?.to_string(), json_to_dt(&f["dt"])?, c));
+        }
+        let table = Table::new(name, path.clone().into(), Schema::new(fields), integer_from(&t["size"])?);
+        out.push((path, Arc::new(Relation::Table(table))));
+    }
+    Ok(out.into_iter().collect())
+}
+
+fn schema_json(s: &Schema) -> J {
+    J::Array(
+        s.iter()
+            .map(|f| json!({"name": f.name(), "dt": dt_to_json(&f.data_type()), "dt_s": f.data_type().to_string(), "constraint": f.constraint().map(|c| format!("{:?}", c))}))
+            .collect(),
+    )
+}
+
+fn size_json(r: &qrlew::data_type::Integer) -> J {
+    dt_to_json(&DataType::Integer(r.clone()))["iv"].clone()
+}
+
+pub fn relation_json(r: &Relation) -> J {
+    let common = |k: &str, r: &Relation| json!({"k": k, "name": r.name(), "schema": schema_json(r.schema()), "size": size_json(r.size())});
+    match r {
+        Relation::Table(t) => {
+            let mut j = common("Table", r);
+            j["path"] = json!(t.path().iter().cloned().collect::<Vec<String>>());
+            j
+        }
+        Relation::Map(m) => {
+            let mut j = common("Map", r);
+            j["projection"] = J::Array(m.named_exprs().iter().map(|(n, e)| json!([n, expr_to_json(e)])).collect());
+            j["filter"] = m.filter().as_ref().map(expr_to_json).unwrap_or(J::Null);
+            j["order_by"] = J::Array(m.order_by().iter().map(|o| json!([expr_to_json(&o.expr), o.asc])).collect());
+            j["limit"] = json!(m.limit());
+            j["offset"] = json!(m.offset());
+            j["input"] = relation_json(m.input());
+            j
+        }
+        Relation::Reduce(m) => {
+            let mut j = common("Reduce", r);
+            j["aggregate"] = J::Array(
+                m.named_aggregates()
+                    .iter()
+                    .map(|(n, a)| {
+                        let e: qrlew::expr::Expr = (*a).clone().into();
+                        json!([n, expr_to_json(&e)])
+                    })
+                    .collect(),
+            );
+            j["group_by"] = J::Array(m.group_by().iter().map(|c| json!(c.iter().cloned().collect::<Vec<String>>())).collect());
+            j["input"] = relation_json(m.input());
+            j
+        }
+        Relation::Join(m) => {
+            let mut j = common("Join", r);
+            let (kind, on) = match m.operator() {
+                JoinOperator::Inner(e) => ("Inner", Some(e)),
+                JoinOperator::LeftOuter(e) => ("LeftOuter", Some(e)),
+                JoinOperator::RightOuter(e) => ("RightOuter", Some(e)),
+                JoinOperator::FullOuter(e) => ("FullOuter", Some(e)),
+                JoinOperator::Cross => ("Cross", None),
+            };
+            j["kind"] = json!(kind);
+            j["on"] = on.map(expr_to_json).unwrap_or(J::Null);
+            j["field_inputs"] = J::Array(m.field_inputs().map(|(n, i)| json!([n, i.iter().cloned().collect::<Vec<String>>()])).collect());
+            j["left"] = relation_json(m.left());
+            j["right"] = relation_json(m.right());
+            j
+        }
+        Relation::Set(m) => {
+            let mut j = common("Set", r);
+            j["operator"] = json!(format!("{:?}", m.operator()));
+            j["quantifier"] = json!(format!("{:?}", m.quantifier()));
+            j["left"] = relation_json(m.left());
+            j["right"] = relation_json(m.right());
+            j
+        }
+        Relation::Values(v) => {
+            let mut j = common("Values", r);
+            j["values"] = values_of(v);
+            j
+        }
+    }
+}
+
+#[cfg(qrlew_verif)]
+fn values_of(v: &Values) -> J {
+    J::Array(v.verif_values().iter().map(value_to_json).collect())
+}
+#[cfg(not(qrlew_verif))]
+fn values_of(_v: &Values) -> J {
+    J::Null
+}
+
+pub fn render(r: &Relation) -> J {
+    let pg = guarded(|| json!(ast::Query::from(RelationWithTranslator(r, PostgreSqlTranslator)).to_string()));
+    let lite = guarded(|| json!(ast::Query::from(RelationWithTranslator(r, SQLiteTranslator)).to_string()));
+    json!({"postgres": pg, "sqlite": lite})
+}
+
+pub fn parse_relation(tables: &Hierarchy<Arc<Relation>>, sql_text: &str) -> Result<Relation, String> {
+    let q = sql::parse(sql_text).map_err(|e| format!("parse: {e}"))?;
+    Relation::try_from(QueryWithRelations::new(&q, tables)).map_err(|e| format!("relation: {e}"))
+}
+
+pub fn run(op: &str, job: &J) -> Option<R<J>> {
+    Some((|| -> R<J> {
+        Ok(match op {
+            "relation" => {
+                let tables = tables_from(&job["tables"])?;
+                let sql_text = job["sql"].as_str().ok_or("sql")?.to_string();
+                guarded(|| match parse_relation(&tables, &sql_text) {
+                    Ok(r) => {
+                        let mut out = json!({"ok": relation_json(&r)});
+                        if job["render"].as_bool().unwrap_or(false) {
+                            out["sql"] = render(&r);
+                        }
+                        out
+                    }
+                    Err(e) => json!({"err": e}),
+                })
+            }
+            _ => return crate::rw::run(op, job).unwrap_or_else(|| Err(format!("unknown op {op}"))),
+        })
+    })())
 }
